@@ -167,7 +167,7 @@ def knownSyncKinds : List String := [
   "atomic:Add", "atomic:CompareAndSwap", "atomic:Load", "atomic:Store", "atomic:Swap",
   "chan:close", "chan:make", "chan:range", "chan:recv", "chan:select", "chan:send", "chan:trysend",
   "cond:Broadcast", "cond:Signal", "cond:Wait", "ctx:cancel", "go:go",
-  "mutex:Lock", "mutex:RLock", "mutex:RUnlock", "mutex:Unlock",
+  "mutex:Lock", "mutex:RLock", "mutex:RUnlock", "mutex:TryLock", "mutex:TryRLock", "mutex:Unlock",
   "pool:Get", "pool:Put", "time:NewTicker", "time:Stop", "wg:Add", "wg:Done", "wg:Wait"]
 theorem sync_kinds_known : Generated.syncKinds.all (fun k => knownSyncKinds.contains k) = true := by decide
 
